@@ -71,7 +71,11 @@ class FaultOracle:
                 bad("C14.wrong_tid", f"fault callback carries transaction id {f['tid']}, live transaction is {m['tid']}")
             want = table.get(f["cond"])
             in_cancel_exchange = pre["cancelled"] is not None
-            if f["fault"] != want and not (f["fault"] == "abandon" and in_cancel_exchange):
+            # CFDP 4.11.2.3.2: a fault that would cancel an already cancelled transaction abandons it instead (logged through the
+            # abandonment callback with the original condition). That is the effect of the handler code 'notice of cancellation' only:
+            # with 'ignore' / 'abandon' configured for the limit fault of the exchange, the table decides as everywhere else.
+            excused = f["fault"] == "abandon" and in_cancel_exchange and table.get("POSITIVE_ACK_LIMIT_REACHED") == "cancel"
+            if f["fault"] != want and not excused:
                 bad("C14.wrong_kind", f"condition {f['cond']} is configured as '{want}' but the '{f['fault']}' callback fired", cond=f["cond"], want=want, got=f["fault"])
             eff = f["fault"]
             if eff == "abandon":
@@ -217,6 +221,15 @@ class C14Dst(DstWorld, FaultOracle):
         if ev[0] in ("md", "fd", "eof"):
             sent.append(repr(ev))
         self.step_model(st, ev, out, self.idle(st))
+        # a cancellation that is not a fault declaration (Cancel.request, EOF (cancel) from the sender): the Finished (cancel) exchange runs
+        o = out.get("D", {})
+        if st.m["cancelled"] is None and not o.get("exc") and not st.m["done"]:
+            if ev[0] == "cancel" and out.get("ret") is True:
+                st.m["cancelled"] = "CANCEL_REQUEST_RECEIVED"
+                st.m["due"] = None
+            elif ev[0] == "eof" and ev[2] != "NO_ERROR" and st.D.h.state.name == "BUSY":
+                st.m["cancelled"] = ev[2]
+                st.m["due"] = None
         st.m["calls"] = calls + 1
         st.m["sent"] = sent
 
@@ -297,6 +310,12 @@ def configs(tier):
                                  faults_d={"POSITIVE_ACK_LIMIT_REACHED": code}, alphabet=full + [("ackfin",)], max_calls=9))
             worlds.append(C14Dst(scenario="dst_nak_limit", mode="ack", nak=nak, size=size, seg=2, ack_limit=2, nak_limit=1,
                                  faults_d={"NAK_LIMIT_REACHED": code}, alphabet=[e for e in full if e != ("fd", 2, 1, 0)] + [("ackfin",)], max_calls=9))
+        # the Finished (cancel) PDU of a transaction cancelled by the sender's EOF (cancel) or by the local user is never acknowledged
+        for al in (1, 2):
+            worlds.append(C14Dst(scenario="dst_ack_limit_cancelled", mode="ack", nak="imm", size=size, seg=2, ack_limit=al, nak_limit=2,
+                                 faults_d={"POSITIVE_ACK_LIMIT_REACHED": code},
+                                 alphabet=[("md",), ("fd", 0, 2, 0), ("eof", 2, "CANCEL_REQUEST_RECEIVED", 1), ("cancel", "right"), ("tick",), ("expire",), ("ackfin",)],
+                                 max_calls=8 + al))
         for closure in (False, True):
             worlds.append(C14Dst(scenario="dst_check_limit", mode="unack", closure=closure, size=size, seg=2, check_limit=1,
                                  faults_d={"CHECK_LIMIT_REACHED": code}, alphabet=[e for e in full if e != ("fd", 2, 1, 0)], max_calls=7))
